@@ -15,6 +15,7 @@ for which the guarded trace `_VERIF_TRACE` reports that the shortcut fired is at
 one KNOWN-FINDING line); a wrong result without a firing is a VIOLATION.
 """
 import math
+import signal
 from fractions import Fraction
 
 import numpy as np
@@ -76,7 +77,8 @@ def py_check(bars, cps, tol):
     fc = [[(F(x), F(y)) for x, y in c] for c in cps]
     for k, c in enumerate(fc):
         if len(c) < 2 or c[0][1] != 0 or c[-1][1] != 0 or any(p[0] >= q[0] for p, q in zip(c, c[1:])):
-            return "depth %d is not well formed (needs >=2 points, strictly increasing abscissae, zero end values)" % k
+            return ("depth index %d is not well formed (needs >=2 points, strictly increasing abscissae, zero end values): %s"
+                    % (k, [[float(x), float(y)] for x, y in c][:12]))
     ev = set()
     for b, d in fb:
         ev.update((b, d, (b + d) / 2))
@@ -216,20 +218,43 @@ def arr(D):
     return np.array(D, dtype=float).reshape(-1, 2)
 
 
+class Hang(BaseException):
+    """the constructor did not return within HANG_S seconds (not an Exception: `common.call` must not swallow it)"""
+
+
+HANG_S = 5.0
+
+
+def _alarm(signum, frame):
+    raise Hang()
+
+
 def run_code(dgms, hom_deg):
-    """-> (status, critical pairs as lists of [x,y] floats | error kind, number of shortcut firings)"""
+    """-> (status, critical pairs as lists of [x,y] floats | error kind, number of shortcut firings);
+    status 'hang' when the sweep does not terminate (a rewritten loop can spin forever while its list grows)"""
     mod = common.pm("landscapes.exact")
     trace = mod._VERIF_TRACE
     if trace is None:
         raise common.HarnessError("persim.landscapes.exact._VERIF_TRACE is None: the PERSIM_VERIF hook is off")
     del trace[:]
-    with np.errstate(all="ignore"):
-        st, v, _ = call(mod.PersLandscapeExact, dgms=[arr(D) for D in dgms], hom_deg=hom_deg)
+    old = signal.signal(signal.SIGALRM, _alarm)
+    signal.setitimer(signal.ITIMER_REAL, HANG_S)
+    try:
+        with np.errstate(all="ignore"):
+            st, v, _ = call(mod.PersLandscapeExact, dgms=[arr(D) for D in dgms], hom_deg=hom_deg)
+    except Hang:
+        del trace[:]
+        return "hang", "no result within %.0f s" % HANG_S, 0
+    finally:
+        signal.setitimer(signal.ITIMER_REAL, 0)
+        signal.signal(signal.SIGALRM, old)
     fired = sum(1 for x in trace if x[0] == "repeated-bar-shortcut")
     del trace[:]
     if st == "err":
         return "err", v, fired
     cps = [[[float(p[0]), float(p[1])] for p in depth] for depth in v.critical_pairs]
+    if not all(math.isfinite(x) for depth in cps for p in depth for x in p):
+        return "nonfinite", "critical pairs contain inf/nan: %r" % (cps,), fired
     return "ok", cps, fired
 
 
@@ -302,6 +327,8 @@ def run(ctx):
         rows.append((c, bars, st, out, fired, eps))
         lines.append("pl.exact %d %s" % (c["hom_deg"], enc(c["dgms"])))
         lines.append("pl.certify %s %s %s" % (enc(eps), enc(bars), enc(out if st == "ok" else [])))
+        if st != "ok" and sum(1 for r_ in rows if r_[2] != "ok") >= 3:      # exceptions / hangs: three inputs are enough
+            break
     answers = ask(lines)
     ctx.extra["anchored_line_coverage"] = cov.summary()
 
@@ -329,7 +356,13 @@ def run(ctx):
         if c["dgms"][c["hom_deg"]][-1][1] == math.inf:
             ctx.count("trailing_inf")
         if st != "ok":
-            raise common.HarnessError("the real constructor raised %s on a well-formed diagram %r" % (out, c))
+            # a well-formed diagram must yield a landscape: an exception or a non-terminating sweep fails the property
+            ctx.count("no_result:" + st)
+            ctx.violation("PersLandscapeExact gives no landscape for a well-formed diagram: %s %s" % (st, out),
+                          {"dgms": c["dgms"], "hom_deg": c["hom_deg"]}, found_input=True)
+            if len(ctx.violations) > 5:
+                break
+            continue
         programs += 1
         if fired:
             fired_cases += 1
@@ -465,8 +498,8 @@ def known_replay(ctx, kf):
 def replay(ctx, rep):
     c = rep["case"]
     if "dgms" not in c:
-        print("correspondence replay: send %r to the driver and compare with the code" % c.get("line"))
-        dg = None
+        print("correspondence replay: send %r to the driver and compare with the code's critical_pairs" % c.get("line"))
+        print("code:", c.get("code"), "\nmodel:", c.get("model"))
         return True
     dgms = [[[float(x) for x in b] for b in D] for D in c["dgms"]]
     h = c["hom_deg"]
@@ -474,14 +507,19 @@ def replay(ctx, rep):
     print("PersLandscapeExact(dgms=%r, hom_deg=%d).critical_pairs ->" % (dgms, h))
     print("  ", out, " shortcut fired:", fired)
     if st != "ok":
+        print("no landscape:", st, out)
         return False
     bars = selected_bars({"dgms": dgms, "hom_deg": h})
     exact_in = all(float(x) == round(float(x) * 2 ** 30) / 2 ** 30 for b in bars for x in b)
     eps = Fraction(0) if exact_in else Fraction(1e-9 * scale_of(bars))
     res = py_check(bars, out, eps)
     try:
-        ans = ask(["pl.certify %s %s %s" % (enc(eps), enc(bars), enc(out))])[0]
-        print("Lean checker:", ans)
+        ans = ask(["pl.certify %s %s %s" % (enc(eps), enc(bars), enc(out)), "pl.exact %d %s" % (h, enc(dgms))])
+        print("Lean checker on the code's output:", ans[0])
+        if res is not None and eps > 0 and isinstance(ans[1], list) and same_cps(out, ans[1][0], float(eps)):
+            # rounding edge (see run): verdict through the model's exact output
+            res = py_check(bars, [[[x, y] for x, y in d] for d in ans[1][0]], Fraction(0))
+            print("code output agrees with the model within eps; model output vs definition:", res)
     except Exception as e:  # the replay must work without the driver as well
         print("(driver not available: %s)" % e)
     print("definition vs code:", "equal for all t, k" if res is None else res)
